@@ -63,13 +63,18 @@ pub mod url_parser {
 pub uninterp spec fn classify_spec(raw_type: Seq<char>, schema: Seq<char>) -> (RequestType, bool, bool, bool);
 
 impl Request {
-    #[verifier::external_body]
-    fn from_detailed_parameters(raw_type: &str, url: &str, schema: &str, hostname: &str, source_hostname: &str, third_party: bool, original_url: String) -> (r: Request)
+    // from_detailed_parameters enters by contract, stated over its parameter NAMES; the signature (names, order, types) is read from
+    // the source so that each call site binds its arguments the way the real function takes them
+//@EXTRACT src/request.rs :: impl Request :: fn from_detailed_parameters
+//@ RET r
+//@ SIGONLY
+//@ SPEC
         ensures
             r.is_third_party == third_party, r.hostname@ == hostname@, r.url@ == url@, r.original_url@ == original_url@,
             (r.request_type, r.is_http, r.is_https, r.is_supported) == classify_spec(raw_type@, schema@),
             fdp_source(r) == source_hostname@,
-    { unimplemented!() }
+//@ ENDSPEC
+//@END
 }
 pub uninterp spec fn fdp_source(r: Request) -> Seq<char>;
 
